@@ -39,6 +39,9 @@ pub fn load(abi: &Abi, mem: &Mem, t: &Ty, at: u64) -> Val {
             let l = mem.r_ptr(at + abi.p, abi.p);
             assert!(l == 0 || p % abi.align(et) == 0, "list pointer misaligned");
             let es = abi.size(et);
+            // touch the whole element area first: a wild (pointer, length) pair is rejected by
+            // the memory's validity check before anything is iterated
+            let _ = mem.r(p, l.checked_mul(es).expect("list byte length overflows"));
             Val::List((0..l).map(|k| load(abi, mem, et, p + k * es)).collect())
         }
         Ty::Map(k, v) => {
@@ -281,10 +284,23 @@ pub fn lift_flat(abi: &Abi, mem: &Mem, t: &Ty, it: &mut std::slice::Iter<'_, u64
         Ty::String | Ty::List(_) | Ty::Map(..) => {
             let p = nx();
             let l = nx();
+            if mem.real {
+                // (pointer, length) pair laid out in a local buffer
+                let buf: [u64; 2] = [p, l];
+                assert_eq!(abi.p, 8, "real memory is 64-bit");
+                let before = mem.trusted.replace((buf.as_ptr() as u64, 16));
+                let v = load(abi, mem, t, buf.as_ptr() as u64);
+                mem.trusted.set(before);
+                return v;
+            }
             let mut tmp = Mem {
                 bytes: mem.bytes.clone(),
                 top: mem.top,
                 allocs: vec![],
+                real: false,
+                alloc_fn: None,
+                valid_fn: None,
+                trusted: std::cell::Cell::new((0, 0)),
             };
             let a = tmp.alloc(2 * abi.p, abi.p);
             abi.store_ptr(&mut tmp, a, p);
